@@ -99,6 +99,10 @@ Theorem C20_diff_pixel : forall a b df p ca cb,
   get_pixel df p = Ok (if in_displayb p then diff_color ca cb else None).
 Proof. exact diff_pixel'. Qed.
 
+(* Rgb888 raw values: GREEN = only in self, RED = only in other, BLUE = both set but different *)
+Theorem C20_diff_colours : DIFF_ONLY_SELF = 65280 /\ DIFF_ONLY_OTHER = 16711680 /\ DIFF_DIFFERENT = 255.
+Proof. exact diff_colours. Qed.
+
 Theorem C20_diff_empty_iff_eq : forall a b df,
   diff a b = Ok df -> ((forall p, get_pixel df p = Ok None) <-> mock_eq a b = true).
 Proof. exact diff_empty_iff_eq. Qed.
